@@ -111,6 +111,22 @@ func genC03(t *rapid.T) statCase {
 		c.Test += "Bytes"
 	}
 	c.Seq = gen.DrawSeq(t, n, fams)
+	if test == "cusum" && n >= 400 && rapid.IntRange(0, 5).Draw(t, "wordrecord") == 0 {
+		// the record of the walk is set by exactly one machine word of ones after a deficit of about one word (implementations
+		// that skip whole words which "cannot" set a record)
+		w := rapid.SampledFrom([]int{8, 16, 32, 64, 64}).Draw(t, "word")
+		rev := 0
+		if !c.Flag {
+			rev = 1
+		}
+		a := rapid.IntRange(w, 2*w+40).Draw(t, "record")
+		nn := uniformInt(t, max(400, a*a/6), max(400, a*a), "n_for_record") // the record is 1 .. 2.5 standard deviations of the walk: P is neither 0 nor 1
+		if strings.HasSuffix(c.Test, "Bytes") {
+			nn = (nn + 7) / 8 * 8
+		}
+		c.Seq = gen.Seq{Family: "wordrecord", N: nn, A: a, B: w,
+			Pos: []int{w + rapid.IntRange(-3, 1).Draw(t, "ddeficit"), rapid.IntRange(0, 2*w).Draw(t, "pad"), rev}}
+	}
 	if test == "autocorr" && rapid.IntRange(0, 3).Draw(t, "tile") == 0 {
 		// period d or 2d tiles: the disagreement count is 0, n-d, or in between
 		p := c.M * rapid.IntRange(1, 2).Draw(t, "mult")
